@@ -106,8 +106,8 @@ def work(task):
     lem = z3.And([vv[i] * uu[j] == vv[j] * uu[i] for i in range(n) for j in range(i + 1, n)] +
                  [z3.Sum([vv[i] * uu[i] for i in range(n)]) >= 0])
     P.prove(f'{tag}|N1b lemma: u = m*u0 with m >= 0 is parallel to and oriented like u0 (n={n})', lem, [mm >= 0], axioms=False)
-    P.prove(f'{tag}|N2b zero base update gives zero update', z3.And([zl(x) == 0 for x in u.reshape(-1)]),
-            rng + run + [zl(x) == 0 for x in base.reshape(-1)])
+    lb, lm_, lu = z3.Reals('lem_b lem_mm lem_u')
+    P.prove(f'{tag}|N2b lemma: with u = base*m (N2), a zero base entry gives a zero update entry', lu == 0, [lu == lb * lm_, lb == 0], axioms=False)
     if c['start'] > 0:
       P.equal(f'{tag}|N3 update is the graft step before start', u, gs, rng + [count < c['start']])
       P.reach(f'{tag}|twin: warm-up reachable', rng, [count < c['start']])
